@@ -233,10 +233,33 @@ func r46UniqueLeaderDecides(c *core.Ctx) {
 	win := extractOf(call, winIdx)
 	key := extractOf(call, keyIdx)
 	okCmp := false
-	if win != nil {
+	if win != nil && key != nil {
 		for _, r := range *win.Referrers() {
-			if cmp, ok := r.(*ssa.BinOp); ok && cmp.Op == token.EQL && isConstInt(cmp.Y, 1) && cmp.X == win {
-				okCmp = true
+			cmp, ok := r.(*ssa.BinOp)
+			if !ok || (cmp.Op != token.EQL && cmp.Op != token.NEQ) || !isConstInt(cmp.Y, 1) || cmp.X != win {
+				continue
+			}
+			// the use of the leading key (polygons[maxK] = …, or handing it back) lies on the "== 1" side only
+			oneEdge := 0
+			if cmp.Op == token.NEQ {
+				oneEdge = 1
+			}
+			for _, cr := range *cmp.Referrers() {
+				i, isIf := cr.(*ssa.If)
+				if !isIf {
+					continue
+				}
+				reachedOtherwise := false
+				for _, kr := range *key.Referrers() {
+					ki, isInstr := kr.(ssa.Instruction)
+					if !isInstr {
+						continue
+					}
+					if found, _ := (core.Search{Fn: i.Parent(), From: i, Target: instrIs(ki), Barrier: instrIs(call), Edge: func(bb *ssa.BasicBlock, k int) bool { return !(bb == i.Block() && k == oneEdge) }}).Run(); found {
+						reachedOtherwise = true
+					}
+				}
+				okCmp = !reachedOtherwise
 			}
 		}
 	}
